@@ -657,7 +657,7 @@ def main(ck):
         "finite and admissible parameters of the iterative fits": "observed",
     }
     run_corpus(ck)
-    n_draws = 60 if thorough else 8
+    n_draws = 150 if thorough else 16
     ns = [100, 1000, 5000] if thorough else [100, 1000]
     cases = list(gen_cases(rng, n_draws, ns))
     plain = [c for c in cases if c["start_kind"] != "argmax"]
